@@ -28,7 +28,8 @@ def rclose(reg): return {"op": "close", "dst": 8, "reg": reg}          # __file_
 
 def aw(reg): return {"k": "await", "reg": reg}
 def recv(tys=("int",), acc=None, body="pure"):
-    return {"k": "recv", "tys": list(tys), "filt": acc is not None or body != "pure",
+    # (a builtin used as a receive source has no body: it only names the message type and is never applied)
+    return {"k": "recv", "tys": list(tys), "filt": acc is not None or body not in ("pure", "builtin"),
             "acc": list(acc or []), "body": body}
 def tmo(d): return {"k": "timeout", "d": d}
 
@@ -74,6 +75,7 @@ class Renderer:
         if s["k"] == "timeout": return str(s["d"])
         ty = " | ".join(TYNAMES[t] for t in s["tys"])
         if len(s["tys"]) > 1: ty = "(" + ty + ")"
+        if s.get("body") == "builtin": return "&__integer_add__"     # a builtin as receive source: ['int, 'int], type-only
         if not s["filt"]: return "#" + ty
         if s["body"] == "spawn": return "#%s { @#{ 1 }, Ok }" % ty
         if s["body"] == "send": return "#%s { 0 s%dr1, Ok }" % (ty, sid)
